@@ -47,7 +47,7 @@ func (s *Sort) String() string {
 	case KBool:
 		return "Bool"
 	case KF64:
-		return "(_ FloatingPoint 11 53)"
+		return "F64"
 	case KStr:
 		return "Str"
 	case KEvent:
@@ -107,12 +107,27 @@ func BoolLit(b bool) Term {
 	return TFalse
 }
 
+// F64Lit: a float64 literal is a named constant of the abstract float sort;
+// its NaN flag and order key are asserted when the symbol is used (Closure).
 func F64Lit(f float64) Term {
-	b := math.Float64bits(f)
-	sign := b >> 63
-	exp := (b >> 52) & 0x7ff
-	man := b & ((1 << 52) - 1)
-	return Term{fmt.Sprintf("(fp #b%d #b%011b #b%052b)", sign, exp, man), SF64}
+	return Term{fmt.Sprintf("|f64:%016x|", math.Float64bits(f)), SF64}
+}
+
+func f64LitDecl(sym string) string {
+	var b uint64
+	fmt.Sscanf(sym, "|f64:%x|", &b)
+	f := math.Float64frombits(b)
+	if f != f {
+		return fmt.Sprintf("(declare-fun %s () F64)\n(assert (fnan %s))\n", sym, sym)
+	}
+	var key string
+	mag := b & 0x7fffffffffffffff
+	if b>>63 == 1 && mag != 0 {
+		key = fmt.Sprintf("(- %d)", mag)
+	} else {
+		key = fmt.Sprintf("%d", mag)
+	}
+	return fmt.Sprintf("(declare-fun %s () F64)\n(assert (and (not (fnan %s)) (= (fkey %s) %s)))\n", sym, sym, sym, key)
 }
 
 func app(so *Sort, op string, args ...Term) Term {
@@ -253,11 +268,26 @@ func Sub(a, b Term) Term {
 	return app(SInt, "-", a, b)
 }
 func Mul(a, b Term) Term { return app(SInt, "*", a, b) }
+
+// IX is the position of element i of a slice with offset off. It is an
+// uninterpreted function with the axiom ix(o,i) = o+i, so that quantifier
+// triggers over element reads do not contain arithmetic.
+func IX(off, i Term) Term {
+	if off.S == "0" {
+		return i
+	}
+	return app(SInt, "ix", off, i)
+}
 func Neg(a Term) Term    { return app(SInt, "-", a) }
 func Lt(a, b Term) Term  { return app(SBool, "<", a, b) }
 func Le(a, b Term) Term  { return app(SBool, "<=", a, b) }
 func Gt(a, b Term) Term  { return app(SBool, ">", a, b) }
 func Ge(a, b Term) Term  { return app(SBool, ">=", a, b) }
+
+// storeParts remembers the structure of store terms (and of the names given to
+// them) so that reads can be resolved syntactically (read-over-write).
+var storeParts = map[string][3]Term{}
+var constArrays = map[string]Term{}
 
 func Select(a, i Term) Term {
 	if a.Sort.K != KArray {
@@ -266,7 +296,59 @@ func Select(a, i Term) Term {
 	if !a.Sort.Key.Eq(i.Sort) {
 		panic(fmt.Sprintf("Select: key sort mismatch %s[%s:%s]", a.Sort, i.S, i.Sort))
 	}
-	return app(a.Sort.Val, "select", a, i)
+	cur := a
+	for n := 0; n < 64; n++ {
+		if v, ok := constArrays[cur.S]; ok {
+			return v
+		}
+		p, ok := storeParts[cur.S]
+		if !ok {
+			break
+		}
+		if p[1].S == i.S {
+			return p[2]
+		}
+		if !syntacticallyDistinct(p[1], i) {
+			break
+		}
+		cur = p[0]
+	}
+	return app(a.Sort.Val, "select", cur, i)
+}
+
+// syntacticallyDistinct: two integer terms that denote different values in
+// every model: different literals, or the same base plus different offsets.
+func syntacticallyDistinct(x, y Term) bool {
+	if x.Sort.K != KInt || y.Sort.K != KInt {
+		return false
+	}
+	bx, ox, okx := baseOffset(x.S)
+	by, oy, oky := baseOffset(y.S)
+	if !okx || !oky {
+		return false
+	}
+	return bx == by && ox != oy
+}
+
+func baseOffset(s string) (base string, off int64, ok bool) {
+	var n int64
+	if _, err := fmt.Sscanf(s, "%d", &n); err == nil && fmt.Sprintf("%d", n) == s {
+		return "", n, true
+	}
+	if strings.HasPrefix(s, "(+ ") && strings.HasSuffix(s, ")") {
+		body := s[3 : len(s)-1]
+		k := strings.LastIndexByte(body, ' ')
+		if k > 0 {
+			if _, err := fmt.Sscanf(body[k+1:], "%d", &n); err == nil && fmt.Sprintf("%d", n) == body[k+1:] && !strings.ContainsAny(body[:k], " ()") {
+				return body[:k], n, true
+			}
+		}
+		return "", 0, false
+	}
+	if !strings.ContainsAny(s, " ()") {
+		return s, 0, true
+	}
+	return "", 0, false
 }
 
 func Store(a, i, v Term) Term {
@@ -279,11 +361,15 @@ func Store(a, i, v Term) Term {
 	if !a.Sort.Key.Eq(i.Sort) {
 		panic(fmt.Sprintf("Store: key sort mismatch array %s key %s:%s", a.Sort, i.S, i.Sort))
 	}
-	return app(a.Sort, "store", a, i, v)
+	t := app(a.Sort, "store", a, i, v)
+	storeParts[t.S] = [3]Term{a, i, v}
+	return t
 }
 
 func ConstArray(so *Sort, v Term) Term {
-	return Term{"((as const " + so.String() + ") " + v.S + ")", so}
+	t := Term{"((as const " + so.String() + ") " + v.S + ")", so}
+	constArrays[t.S] = v
+	return t
 }
 
 func Forall(vars []Term, body Term) Term { return quant("forall", vars, body) }
@@ -416,6 +502,12 @@ func (c *Ctx) Define(prefix string, t Term) Term {
 	c.n++
 	name := quoteSym(fmt.Sprintf("%s!%d", prefix, c.n))
 	c.add(&Sym{Name: name, Kind: symDef, Text: fmt.Sprintf("(define-fun %s () %s %s)", name, t.Sort, t.S), Deps: symbolsIn(t.S)})
+	if p, ok := storeParts[t.S]; ok {
+		storeParts[name] = p
+	}
+	if v, ok := constArrays[t.S]; ok {
+		constArrays[name] = v
+	}
 	return Term{name, t.Sort}
 }
 
@@ -542,6 +634,28 @@ func (c *Ctx) Closure(texts ...string) string {
 		}
 	}
 	var sb strings.Builder
+	lits := map[string]bool{}
+	collect := func(text string) {
+		for _, t := range symbolsIn(text) {
+			if strings.HasPrefix(t, "|f64:") {
+				lits[t] = true
+			}
+		}
+	}
+	for _, t := range texts {
+		collect(t)
+	}
+	for n := range need {
+		collect(c.syms[n].Text)
+	}
+	var ls []string
+	for l := range lits {
+		ls = append(ls, l)
+	}
+	sort.Strings(ls)
+	for _, l := range ls {
+		sb.WriteString(f64LitDecl(l))
+	}
 	for _, n := range c.order {
 		if need[n] {
 			sb.WriteString(c.syms[n].Text)
@@ -566,6 +680,25 @@ const smtPrelude = `(set-option :produce-models true)
 (set-logic ALL)
 (declare-sort Str 0)
 (declare-sort Event 0)
+(declare-sort F64 0)
+(declare-fun fnan (F64) Bool)
+(declare-fun fkey (F64) Int)
+(define-fun f64.lt ((x F64) (y F64)) Bool (and (not (fnan x)) (not (fnan y)) (< (fkey x) (fkey y))))
+(define-fun f64.leq ((x F64) (y F64)) Bool (and (not (fnan x)) (not (fnan y)) (<= (fkey x) (fkey y))))
+(define-fun f64.gt ((x F64) (y F64)) Bool (and (not (fnan x)) (not (fnan y)) (> (fkey x) (fkey y))))
+(define-fun f64.geq ((x F64) (y F64)) Bool (and (not (fnan x)) (not (fnan y)) (>= (fkey x) (fkey y))))
+(define-fun f64.eq ((x F64) (y F64)) Bool (and (not (fnan x)) (not (fnan y)) (= (fkey x) (fkey y))))
+(define-fun f64.isNaN ((x F64)) Bool (fnan x))
+(define-fun f64.isPosInf ((x F64)) Bool (and (not (fnan x)) (= (fkey x) 9218868437227405312)))
+(define-fun f64.isNegInf ((x F64)) Bool (and (not (fnan x)) (= (fkey x) (- 9218868437227405312))))
+(declare-fun f64.neg (F64) F64)
+(declare-fun f64.add (F64 F64) F64)
+(declare-fun f64.sub (F64 F64) F64)
+(declare-fun f64.mul (F64 F64) F64)
+(declare-fun f64.div (F64 F64) F64)
+(declare-fun i2f (Int) F64)
+(assert (forall ((x F64)) (! (and (<= (- 9218868437227405312) (fkey x)) (<= (fkey x) 9218868437227405312)) :pattern ((fkey x)))))
+(assert (forall ((x F64)) (! (and (= (fnan (f64.neg x)) (fnan x)) (= (fkey (f64.neg x)) (- (fkey x)))) :pattern ((f64.neg x)))))
 (declare-fun strEmpty () Str)
 (declare-fun evNone () Event)
 (declare-fun slen (Str) Int)
@@ -573,7 +706,9 @@ const smtPrelude = `(set-option :produce-models true)
 (declare-fun ssub (Str Int Int) Str)
 (declare-fun sbyte (Str Int) Int)
 (declare-fun sless (Str Str) Bool)
-(assert (forall ((s Str)) (! (and (<= 0 (slen s)) (= (= (slen s) 0) (= s strEmpty))) :pattern ((slen s)))))
+(declare-fun ix (Int Int) Int)
+(assert (forall ((o Int) (i Int)) (! (= (ix o i) (+ o i)) :pattern ((ix o i)))))
+(assert (forall ((s Str)) (! (and (<= 0 (slen s)) (<= (slen s) 4611686018427387904) (= (= (slen s) 0) (= s strEmpty))) :pattern ((slen s)))))
 (define-fun wrap64 ((x Int)) Int (ite (and (<= (- 9223372036854775808) x) (<= x 9223372036854775807)) x (- (mod (+ x 9223372036854775808) 18446744073709551616) 9223372036854775808)))
 (define-fun wrapu64 ((x Int)) Int (ite (and (<= 0 x) (<= x 18446744073709551615)) x (mod x 18446744073709551616)))
 (define-fun wrap32 ((x Int)) Int (ite (and (<= (- 2147483648) x) (<= x 2147483647)) x (- (mod (+ x 2147483648) 4294967296) 2147483648)))
